@@ -68,7 +68,7 @@ pub struct Cli {
 impl Cli {
     pub fn run(self) -> Result<(), Error> {
         if self.debug {
-            eprintln!("{self:#?}");
+            let _ = writeln!(std::io::stderr(), "{self:#?}");
         }
 
         let level = if self.quiet > 0 {
